@@ -32,6 +32,10 @@ pub struct SpawnerId(u64);
 
 impl SpawnerId {
     pub fn new() -> SpawnerId {
+        #[cfg(pendulum_project_ntpd_rs_verif)]
+        if let Some(id) = crate::daemon::verif::spawn::next_spawner_id() {
+            return SpawnerId(id);
+        }
         static COUNTER: AtomicU64 = AtomicU64::new(1);
         SpawnerId(COUNTER.fetch_add(1, std::sync::atomic::Ordering::Relaxed))
     }
@@ -299,6 +303,15 @@ pub(super) async fn resolve_single_ntp_server(address: NtpAddress) -> Option<Soc
                 // Setting up a connection is actually a local only operation for udp sockets.
                 // However, it gives the operating system a chance to let us know whether there
                 // is a route to the given address.
+                #[cfg(pendulum_project_ntpd_rs_verif)]
+                match crate::daemon::verif::spawn::sim_route_check(addr) {
+                    Some(Ok(())) => return Some(addr),
+                    Some(Err(e)) => {
+                        last_error = Some(e);
+                        continue;
+                    }
+                    None => {}
+                }
                 if let Err(e) = timestamped_socket::socket::connect_address(
                     addr,
                     timestamped_socket::socket::GeneralTimestampMode::None,
